@@ -26,7 +26,7 @@ GIRNAME = {'FooText': 'Text', 'FooTextBuffer': 'TextBuffer', 'FooTextView': 'Tex
 ANCESTORS = {'FooText': ('GObject',), 'FooTextBuffer': ('GObject',), 'FooTextView': ('FooText', 'GObject'),
              'FooRec': (), 'FooBoxed': ()}
 
-NAME_PREFIX = ('text', 'text_buffer', 'text_view', 'rec', 'boxed', 'other', '')
+NAME_PREFIX = ('text', 'text_buffer', 'text_view', 'rec', 'boxed', 'other', '', 'object')     # 'object': prefix of the foreign GObject
 VERBS = ('new', 'new_with_x', 'newv', 'get_x', 'free', 'renew', 'news')
 FIRST = (None, 'FooText', 'FooTextBuffer', 'FooTextView', 'FooRec', 'FooBoxed', 'GObject', 'int')
 RET = (None, 'FooText', 'FooTextBuffer', 'FooTextView', 'FooRec', 'FooBoxed', 'GObject', 'int')
